@@ -41,6 +41,51 @@ pub fn damaged(mut p: Piece, class: &str, bits: &[u32]) -> Piece {
     p
 }
 
+fn get_bits(p: &[u8], at: usize, n: usize) -> u64 {
+    let mut v = 0u64;
+    for i in 0..n {
+        let b = at + i;
+        v = (v << 1) | ((p[b / 8] >> (7 - b % 8)) & 1) as u64;
+    }
+    v
+}
+
+fn set_bits(p: &mut [u8], at: usize, n: usize, v: u64) {
+    for i in 0..n {
+        let b = at + i;
+        let bit = ((v >> (n - 1 - i)) & 1) as u8;
+        p[b / 8] = (p[b / 8] & !(0x80 >> (b % 8))) | (bit << (7 - b % 8));
+    }
+}
+
+/// A family of MSM frames made from one real encoder frame A: B has another satellite mask and
+/// an empty signal mask (decodes to Corrupt), C has B's satellite mask and A's signal and cell
+/// masks. Alone each has one decoding; a decoder that memoised the mask expansion with broken
+/// invalidation would decode C differently after A and B.
+fn msm_family(msg: u16, seed: u64) -> Option<Vec<Piece>> {
+    use crate::workload::{gen_frame, GenSpec};
+    let mut b = rtcm_rs::prelude::MessageBuilder::new();
+    let spec = GenSpec { msg, gen_seed: seed, p_len_max: 0.0, p_field_max: 0.0, force: Vec::new() };
+    let a = gen_frame(&mut b, &spec)?;
+    let n = a.len();
+    let p: Vec<u8> = a[3..n - 3].to_vec();
+    if p.len() * 8 < 169 + 8 {
+        return None;
+    }
+    let s1 = get_bits(&p, 73, 64);
+    let s2 = s1.rotate_left(1);
+    if s2 == s1 || s1 == 0 {
+        return None;
+    }
+    let mut pb = p.clone();
+    set_bits(&mut pb, 73, 64, s2);
+    set_bits(&mut pb, 137, 32, 0);
+    let mut pc = p.clone();
+    set_bits(&mut pc, 73, 64, s2);
+    let mk = |j: usize, pl: &[u8]| piece(&format!("foreign:family{}of:lib:{}", j, msg), "foreign", make_frame(0, pl), true);
+    Some(vec![mk(0, &p), mk(1, &pb), mk(2, &pc), mk(3, &p), mk(4, &pc)])
+}
+
 pub fn build(prop: Prop, name: &str, pieces: Vec<Piece>, cuts: Vec<usize>, restarts: Vec<usize>, variant: u8, strategy: &str) -> StreamTrace {
     let mut t = StreamTrace::empty(prop.id());
     t.origin = format!("directed:{}", name);
@@ -314,6 +359,19 @@ pub fn scenarios(prop: Prop) -> Vec<StreamTrace> {
             let ps = vec![piece(&format!("nearmiss:trailer_{:02x}:L={}", fill, l), "nearmiss", dead, false), frame_piece(0, 0, 0)];
             let total: usize = ps.iter().map(|p| p.bytes.len()).sum();
             add(build(prop, &format!("dead_candidate_trailer_{:02x}_L{}_bytewise", fill, l), ps, every_byte(total), vec![], v, "every_byte"), &mut out);
+        }
+    }
+    // 14. MSM families (see msm_family): related frames of one type in one buffer
+    for (i, msg) in [1074u16, 1077, 1084, 1097, 1127, 1071].iter().enumerate() {
+        if !crate::workload::msg_numbers().contains(msg) {
+            continue;
+        }
+        for seed in 0..6u64 {
+            if let Some(ps) = msm_family(*msg, 7000 + seed * 13 + i as u64) {
+                let v = ((seed as usize + i) % vmax as usize) as u8 + 1;
+                let e0 = ps[0].bytes.len();
+                add(build(prop, &format!("msm_family_{}", msg), ps, vec![e0, e0 + 5], vec![], v, "aimed"), &mut out);
+            }
         }
     }
     // 9. receiver restarts in the middle of a frame
